@@ -12,7 +12,8 @@ EXHAUSTIVE = False
 EXHAUSTIVE_PARTS = (
     "all valid action sequences of length 5 (quick) / 7 (thorough) over the 12-action alphabet "
     "are enumerated completely (every prefix is checked after every step); the random part "
-    "(arbitrary option values, up to 40 steps) is sampled"
+    "(arbitrary option values, up to 40 steps) is sampled; the thorough tier additionally runs a Hypothesis "
+    "RuleBasedStateMachine (300 machines x 40 steps per worker) over the same alphabet"
 )
 TECHNIQUE = 'bounded-exhaustive enumeration of option-call histories + Hypothesis-generated action lists vs a stack model'
 LEVEL_TEXT = 'All valid histories of 5 (quick) / 7 (thorough) actions over a 12-action alphabet are enumerated and compared with a stack model after every step; longer histories with arbitrary option values are sampled.'
@@ -285,3 +286,146 @@ def check_case(case, ctx):
         return []
     kind, step, msg = res
     return [Failure("options:" + kind, "step %d: %s" % (step, msg))]
+
+
+# ------------------------------------------------------------------ stateful machine (thorough tier)
+
+def run_extra(worker):
+    """Hypothesis RuleBasedStateMachine over the real option store and the stack model.
+
+    Rules are the same actions with generated option names/values; the invariant compares
+    numpoly.get_options() with the model after every step.  A failing run is shrunk by Hypothesis
+    as one value; its step list is turned into a plain {"seq": [...]} replay case.
+    """
+    if worker.tier != "thorough":
+        return
+    import hypothesis
+    from hypothesis import settings, Phase, HealthCheck
+    from hypothesis.stateful import RuleBasedStateMachine, rule, invariant, precondition, run_state_machine_as_test
+    import numpoly
+    from .. import hooks
+
+    stats = {"steps": 0, "machines": 0, "nontrivial": 0}
+    found = {}
+
+    class OptionMachine(RuleBasedStateMachine):
+        def __init__(self):
+            super().__init__()
+            hooks.reset_case(numpoly)
+            self.defaults = numpoly.get_options(defaults=True)
+            self.current = dict(numpoly.get_options())
+            self.stack = []
+            self.log = []
+            self.maxdepth = 0
+            self.special = False
+            stats["machines"] += 1
+
+        def _record(self, act, kw):
+            self.log.append([act, kw])
+            stats["steps"] += 1
+
+        @rule(kw=kwargs_st())
+        def enter(self, kw):
+            self._record("enter", kw)
+            cm = numpoly.global_options(**kw)
+            y = cm.__enter__()
+            self.stack.append((dict(self.current), cm, y))
+            self.current.update(kw)
+            self.maxdepth = max(self.maxdepth, len(self.stack))
+
+        @rule(kw=kwargs_st(True))
+        def enter_bad(self, kw):
+            self._record("enter_bad", kw)
+            try:
+                cm = numpoly.global_options(**kw)
+                cm.__enter__()
+            except KeyError:
+                return
+            raise AssertionError("unknown-option-accepted:enter")
+
+        @precondition(lambda self: self.stack)
+        @rule(how=st.sampled_from(["exit", "exit_exc", "exit_base"]))
+        def leave(self, how):
+            self._record(how, None)
+            saved, cm, _ = self.stack.pop()
+            if how == "exit":
+                cm.__exit__(None, None, None)
+            else:
+                exc_type = Boom if how == "exit_exc" else BaseBoom
+                try:
+                    raise exc_type("inside block")
+                except exc_type as err:
+                    try:
+                        res = cm.__exit__(type(err), err, err.__traceback__)
+                    except exc_type:
+                        res = False
+                assert not res, "exception-suppressed:" + how
+                if len(self.stack) >= 1:
+                    self.special = True
+            self.current = saved
+
+        @rule(kw=kwargs_st())
+        def set_valid(self, kw):
+            self._record("set", kw)
+            numpoly.set_options(**kw)
+            self.current.update(kw)
+            if self.stack:
+                self.special = True
+
+        @rule(kw=kwargs_st(True))
+        def set_bad(self, kw):
+            self._record("set_bad", kw)
+            try:
+                numpoly.set_options(**kw)
+            except KeyError:
+                return
+            raise AssertionError("unknown-option-accepted:set")
+
+        @rule()
+        def mutate_get(self):
+            self._record("mutate_get", None)
+            d = numpoly.get_options()
+            d["sort_graded"] = "mutated-by-caller"
+            numpoly.get_options(defaults=True)["retain_names"] = "mutated-by-caller"
+
+        @precondition(lambda self: self.stack)
+        @rule()
+        def mutate_yield(self):
+            self._record("mutate_yield", None)
+            y = self.stack[-1][2]
+            if isinstance(y, dict):
+                y["display_graded"] = "mutated-by-caller"
+
+        @invariant()
+        def agrees(self):
+            assert numpoly.get_options() == self.current, "state-mismatch"
+            assert numpoly.get_options(defaults=True) == self.defaults, "defaults-changed"
+
+        def teardown(self):
+            while self.stack:
+                saved, cm, _ = self.stack.pop()
+                try:
+                    cm.__exit__(None, None, None)
+                except Exception:
+                    pass
+            if self.maxdepth >= 2 and self.special:
+                stats["nontrivial"] += 1
+            found["last_log"] = list(self.log)
+            hooks.reset_case(numpoly)
+
+    machine = hypothesis.seed(worker.seed * 1000 + worker.shard)(OptionMachine)
+    sett = settings(max_examples=300, stateful_step_count=40, deadline=None, database=None,
+                    suppress_health_check=list(HealthCheck))
+    try:
+        run_state_machine_as_test(machine, settings=sett)
+    except AssertionError as err:
+        kind = str(err).split("\n")[0][:60] or "assertion"
+        worker.failures.setdefault("options:stateful:" + kind.split(":")[0], {
+            "count": 1, "case": {"seq": found.get("last_log", [])},
+            "message": "stateful machine: %s; shrunk history: %r" % (kind, found.get("last_log"))})
+    except Exception as err:
+        worker.failures.setdefault("options:stateful:exception:" + type(err).__name__, {
+            "count": 1, "case": {"seq": found.get("last_log", [])}, "message": repr(err)})
+    worker.ctx.add_evals(stats["machines"], stats["nontrivial"])
+    worker.ctx.labels["stateful-machines"] += stats["machines"]
+    worker.ctx.labels["stateful-steps"] += stats["steps"]
